@@ -137,7 +137,10 @@ def specs(R):
         "grid_resample": [((img, 1.0, 2.0), {})],
         "grid_reshape": [((img, sp), {})],
         "grid_resize": [((img, tuple(reversed(sp))), {}), ((img, tuple(s + 1 for s in reversed(sp))), {})],
-        "grid_sample": [((img, coords), {}), ((img, coords[:1]), {"padding": 0.5})],
+        "grid_sample": [((img, coords), {}), ((img, coords[:1]), {"padding": 0.5}),
+                        # data of another dtype than the grid: type_as() copies, the branch of the data_ptr test that subtracts in place
+                        ((img.double() if dt == torch.float32 else img.float(), coords[:1]), {"padding": 0.5}),
+                        (((img * 100).to(torch.int32), coords), {"padding": 2})],
         "grid_sample_mask": [((mask, coords), {})],
         "homogeneous_matmul": [((R["hom"], R["hom"], r(N, D, 1)), {})],
         "hmm": [((R["hom"], R["hom"]), {}), ((r(N, D, 1), R["hom"]), {})],
